@@ -19,6 +19,7 @@ func genMetaScript(r *rand.Rand, kind Kind, half bool) *Script {
 	s.MutateAfterSend = false
 	s.ReqMD = genMD(r, 6, false)
 	s.NHdrOpt, s.NTrlOpt = r.Intn(4), r.Intn(4)
+	s.ReuseMD = r.Intn(3) == 0
 	if r.Intn(3) == 0 {
 		s.Ret = genRet(r)
 		if s.Ret.How == "status" {
@@ -202,6 +203,34 @@ func metaOracle(run *Run) [][2]string {
 	}
 	_ = lastHeader
 	_ = lastTrailer
+	if run.S.ReuseMD {
+		leaked := func(md metadata.MD) bool {
+			if _, ok := md["added-after-the-call"]; ok {
+				return true
+			}
+			for _, vs := range md {
+				for _, v := range vs {
+					if v == "overwritten-after-the-call" || v == "appended-after-the-call" {
+						return true
+					}
+				}
+			}
+			return false
+		}
+		for i := range evs {
+			e := &evs[i]
+			if !e.Call && (e.Who == "cs" || e.Who == "cr") && (e.Op == "header" || e.Op == "trailer") && leaked(e.MD) {
+				add("md-aliased/"+e.Op, "the handler re-used (overwrote) a metadata map after handing it to the library; the caller observed the later content: "+fmt.Sprint(e.MD))
+				break
+			}
+		}
+		for _, t := range append(append([]*metadata.MD{}, run.HdrTargets...), run.TrlTargets...) {
+			if leaked(*t) {
+				add("md-aliased/option", "the handler re-used a metadata map after handing it to the library; a call-option target shows the later content")
+				break
+			}
+		}
+	}
 	if ended {
 		for i, t := range run.HdrTargets {
 			if ok, why := mdContains(*t, wantH); !ok {
